@@ -96,6 +96,54 @@ def check_total(rep, facts, rel, rule):
                                                                   'the construction for {!r} reads {} which {} items do not have'.format(ru.key, miss2 or ['is_auipc_jump'], cls), line=con.node.lineno))
 
 
+def check_gate(rep, facts, rel, rule):
+    """R12.4 (gate): the predicates of a rule read operand fields with getattr right after its mnemonic test; every item that can
+    get as far as the criteria search and carry that mnemonic has to have those fields.  The guard in front of the search decides
+    which classes get that far: items that are not instructions, and pseudo-instructions (`jal label`, `jalr rs` share their
+    mnemonic with a real instruction but have no rd / rs1 / imm), must have been sent round it."""
+    pa = rel.pa
+    item = pa.item
+    concrete = [c for c in facts.subclasses('Item') if c in facts.classes]
+    pseudo_names = facts.sets.get('PSEUDO_INSTRUCTIONS') or set()
+    reach = {}
+    n = 0
+    for r in pa.rows:
+        if not any(ev[0] == 'search' for ev in r['path'].events):
+            continue
+        n += 1
+        f = r['path'].facts.get(item) or {'isa': set(), 'nota': set()}
+        for c in concrete:
+            if all(facts.is_subclass(c, k) for k in f['isa']) and not any(facts.is_subclass(c, k) for k in f['nota']):
+                reach.setdefault(c, r)
+    if not n:
+        raise AnalysisError('transform_compressible: no path reaches the criteria search')
+    for ru in rel.rules:
+        if ru.name is None:
+            continue
+        own_cls, _ = rel.item_fields(ru.name)
+        used = set()
+        for f_ in ru.formulas:
+            used |= mentions(f_)
+        for c, r in sorted(reach.items()):
+            if c == own_cls or not used:
+                continue
+            attrs = [a for a, _ in facts.full_attr_order(c)]
+            if 'name' not in attrs:
+                continue            # the mnemonic test reads i.name first: an item without a name fails there (AttributeError) ...
+            can_carry = (c == 'PseudoInstruction' and ru.name in pseudo_names) or c in rel.pa.mn_classes.get(ru.name, set())
+            if not can_carry:
+                continue
+            missing = sorted(u for u in used if u not in attrs)
+            if missing:
+                node = r['path'].conds[-1][2] if r['path'].conds else pa.loop
+                rep.fail(Finding(rule, 'transform_compressible', 'criteria ' + ru.key,
+                                 '{} items named {!r} reach the criteria search (the guard in front of it does not send them round it), and rule {!r} reads {} which they do not '
+                                 'have: AttributeError under -c for a program that assembles without it'.format(c, ru.name, ru.key, missing), line=pa.loop.lineno),
+                         instance='{} / {}'.format(ru.key, c))
+    rep.ok(rule, 'classes that reach the criteria search: {}'.format(sorted(reach)), nontrivial=False)
+    rep.count('paths that reach the criteria search', n)
+
+
 def run(repo, tier):
     facts = Facts(repo.asm)
     rep = Report('C12', LEVEL,
@@ -114,6 +162,7 @@ def run(repo, tier):
     rep.obligations = [o for o in rep.obligations if o[0] != 'R12.1.meaning']
     check_representation(rep, facts, rel, 'R12.2')
     check_total(rep, facts, rel, 'R12.4.total')
+    check_gate(rep, facts, rel, 'R12.4.gate')
     check_structure(rep, facts, rel, 'R12.5')
     from .. import labelrules as _LB
     _LB.check_live_env(rep, facts, 'R12.6.live-env')
